@@ -604,7 +604,9 @@ fn main() {
         if ctx.quick() {
             ctx.harness(Config::new("bcf_rt_k2_snv_v43", 2), |ch| record_body(ch, &envs, &[1], &[1], false));
         } else {
-            ctx.harness(Config::new("bcf_rt_k2", 2), |ch| record_body(ch, &envs, &all_ff, &all_b, false));
+            // fileformat matters to BCF only through the 4.4 leading-phase rule and the SVLEN
+            // definition: one format on each side of 4.4 (all four are covered at k=1 above)
+            ctx.harness(Config::new("bcf_rt_k2_v43_v45", 2), |ch| record_body(ch, &envs, &[1, 3], &all_b, false));
         }
 
         // (3) integer boundary pairs
